@@ -151,7 +151,7 @@ fn build_dic(rng: &mut Rng, tag: &str, kind: usize) -> Result<Dic, String> {
     let csv = dict::csv_of(&rows, &pos);
     let matrix = "1 1\n0 0 0\n";
     let sys = dict::build_system(csv.as_bytes(), matrix.as_bytes())?;
-    let wd = dict::Workdir::new(tag);
+    let wd = dict::Workdir::new_legacy(tag);
     let cfg = dict::config_json(&wd, &[], &[dict::simple_oov_json(0, 0, 1000)], &[], &[]);
     let mut lexs: Vec<Vec<String>> = vec![];
     let mut users: Vec<Vec<u8>> = vec![];
@@ -272,7 +272,7 @@ fn build_directed_dic(words: &[&str], tag: &str) -> Result<Dic, String> {
     let rows: Vec<dict::Row> = ws.iter().map(|w| dict::Row::simple(w, 0, 0, 100, dict::NOUN)).collect();
     let csv = dict::csv_of(&rows, &pos);
     let sys = dict::build_system(csv.as_bytes(), "1 1\n0 0 0\n".as_bytes())?;
-    let wd = dict::Workdir::new(tag);
+    let wd = dict::Workdir::new_legacy(tag);
     let cfg = dict::config_json(&wd, &[], &[dict::simple_oov_json(0, 0, 1000)], &[], &[]);
     let dic = dict::load(&cfg, sys, vec![])?;
     Ok(Dic { dic, lexs: vec![ws], _wd: wd })
